@@ -653,6 +653,8 @@ def execute(run, props):
                 if enc_err is not None and err is None and "path" in tgt and on_disk in accept:
                     enc_err = None          # written as UTF-8 although the locale cannot encode it: exact text, accepted
                     expect = on_disk
+                if enc_err is not None and err is not None and hard and isinstance(err, OSError) and err.errno in (errno.EIO, errno.ENOSPC):
+                    enc_err = None          # written in an encoding that can hold the text; the injected device error came first (handled below)
                 if enc_err is not None:
                     if err is None or not isinstance(err, UnicodeError):
                         V("file-wrapper", "write_file/unencodable-accepted", step,
